@@ -27,6 +27,8 @@ RULES = [
     Rule('C07.R5', 'reported length is the latest row time plus the one-second post-song delay', 2),
     Rule('C07.R6', 'the delay to the next row is converted with the tempo in force after the row\'s events were handled', 1),
     Rule('C07.R8', 'loading a song resets the track / channel gating state: the gating members are re-initialised and every table sized by the new track count is emptied first', 5),
+    Rule('C07.R9', 'the tempo multiplier is applied where time is subtracted (Tick): its setter does not rescale the pending song time', 1),
+    Rule('C07.R10', 'the variable-length reader stops only at a byte without the continuation bit, at the end of the data, or after at least four bytes', 2),
     Rule('C07.R7', 'running status is updated by every channel voice message; each track\'s time line starts from the initial tempo', 2),
 ]
 EXPLANATION = ('AST/CFG agreement rules over BW_MidiSequencer::handleEvent, parseEvent, MidiTrackRow::sortEvents, buildTimeLine and the interface wiring in '
@@ -269,6 +271,8 @@ def analyse(facts, tier):
     obls += r6(facts)
     obls += r7(facts)
     obls += r8_load_reset(facts)
+    obls += r9_tempo_setter(facts)
+    obls += r10_varlen_exits(facts)
     return obls
 
 
@@ -446,4 +450,98 @@ def r8_load_reset(facts):
                            '%s.resize() keeps the elements of the previous song (no clear() before it): per-track state survives the load' % key))
     if nres < 2:
         raise build.AnalysisBroken('C07.R8: track-count resizes of buildSmfSetupReset not found')
+    return out
+
+
+def r9_tempo_setter(facts):
+    """m_currentPosition.wait is kept in song time; Tick() multiplies the elapsed real time by m_tempoMultiplier before subtracting
+    it.  A function that stores the multiplier must therefore leave the position alone: rescaling the pending wait there applies the
+    multiplier twice to the delay that is being waited for, and every later event is shifted by a constant offset."""
+    out = []
+    n = 0
+    for fn in facts.all_fns():
+        if not fn.name.startswith(SEQ + '::') or fn.tree is None or fn.d.get('ctor'):
+            continue
+        stores_mult = None
+        pos_stores = []
+        for b, j, st in fn.cfg.stmts():
+            for x in walk(st['s']):
+                ap = assign_parts(x)
+                if not ap:
+                    continue
+                t = strip(ap[0])
+                if t.get('k') == 'MemberExpr' and short(t['n']) == 'm_tempoMultiplier':
+                    stores_mult = st['loc']
+                if t.get('k') == 'MemberExpr' and mentions(t, member_named('m_currentPosition')):
+                    pos_stores.append((st['loc'], show(x)[:50]))
+        if stores_mult is None:
+            continue
+        n += 1
+        ok = not pos_stores
+        out.append(Obl('C07.R9', fn.name, 'stores m_tempoMultiplier', stores_mult, 'discharged' if ok else 'finding',
+                       why='stores nothing of the position' if ok else
+                       '%s also stores %s: the pending wait is song time and must not be rescaled when the multiplier changes (Tick applies the multiplier to the elapsed time)' % (short(fn.name), pos_stores[0][1])))
+    if n < 1:
+        raise build.AnalysisBroken('C07.R9: no function stores m_tempoMultiplier')
+    return out
+
+
+def r10_varlen_exits(facts):
+    """readVarLenEx: a quantity ends with the first byte whose bit 7 is clear.  The loop may also stop when the data ends (error) and,
+    if it counts bytes at all, not before four bytes have been taken (the longest quantity of a standard MIDI file): an earlier
+    stop leaves the tail of a long delta time in the stream, where it is parsed as the next event."""
+    out = []
+    fn = facts.fn('readVarLenEx')
+    loops = [x for x in walk(fn.tree) if isinstance(x, dict) and x.get('k') in ('ForStmt', 'WhileStmt', 'DoStmt')]
+    if not loops:
+        raise build.AnalysisBroken('C07.R10: loop of readVarLenEx not found')
+    lp = loops[0]
+    exits = []
+    def rec(t, conds):
+        if isinstance(t, dict):
+            k = t.get('k')
+            if k in ('BreakStmt', 'ReturnStmt'):
+                exits.append((t, list(conds)))
+                return
+            if k == 'IfStmt':
+                rec(t.get('then'), conds + [(t.get('cond'), True)])
+                rec(t.get('else'), conds + [(t.get('cond'), False)])
+                return
+            for k2 in ('body', 'sub'):
+                v = t.get(k2)
+                if isinstance(v, (dict, list)):
+                    rec(v, conds)
+        elif isinstance(t, list):
+            for y in t:
+                rec(y, conds)
+    rec(lp.get('body'), [])
+    if lp.get('cond') is not None and show(lp['cond']) not in ('', '1', 'true'):
+        exits.append(({'k': 'LoopCond', 'ln': lp.get('ln')}, [(lp['cond'], False)]))
+    if len(exits) < 2:
+        raise build.AnalysisBroken('C07.R10: exits of the loop of readVarLenEx not found')
+    for ex, conds in exits:
+        why = None
+        for c, pol in conds:
+            for f in literals(c, pol):
+                # continuation bit clear
+                if f[0] == 'truth' and not f[2] and mentions(f[1], lambda y: y.get('k') == 'BinaryOperator' and y.get('op') == '&' and 0x80 in (const_of(y['l']), const_of(y['r']))):
+                    why = 'byte without the continuation bit'
+                if f[0] == 'cmp' and mentions(f[3], lambda y: y.get('parm') and short(y.get('n', '')) == 'end') or f[0] == 'cmp' and mentions(f[2], lambda y: y.get('parm') and short(y.get('n', '')) == 'end'):
+                    why = why or 'end of the data'
+                n_ = cmp_norm(f) if f[0] == 'cmp' else None
+                if n_ and n_[0] in ('>=', '>', '==') and isinstance(n_[2], int):
+                    # a byte counter: pre-increment compared with K means K bytes were taken when the loop stops
+                    k_ = n_[2] + (1 if n_[0] == '>' else 0)
+                    pre = any(is_incdec(y) and y.get('op') == '++' and y.get('prefix', True) for y in walk(n_[1]) if isinstance(y, dict))
+                    taken = k_ if pre else k_ + 1
+                    if why is None:
+                        why = ('counter: stops after %d bytes' % taken) if taken >= 4 else None
+                        if taken < 4:
+                            out.append(Obl('C07.R10', fn.name, 'loop exit at line %s' % ex.get('ln'), '%s:%s' % (fn.file, ex.get('ln')), 'finding',
+                                           why='the loop stops after %d byte(s) although the quantity goes on: a four-byte delta time (>= 0x200000 ticks) loses its last byte, which is then parsed as an event' % taken))
+                            why = 'reported'
+        if why == 'reported':
+            continue
+        out.append(Obl('C07.R10', fn.name, 'loop exit at line %s' % ex.get('ln'), '%s:%s' % (fn.file, ex.get('ln')), 'discharged' if why else 'finding',
+                       why=why or 'the loop can stop for a reason other than the continuation bit, the end of the data or a four-byte limit'))
     return out
